@@ -354,14 +354,21 @@ def scram_twice(sx, vary):
         except Exception as e:  # noqa
             sx.fail("on_challenge-raises-for-a-valid-CHALLENGE", info=dict(vary=vary, exc=repr(e)))
             return ["exc"]
-        kd = [c for c in uf.calls[n0:] if c[0] == "argon2id"]
-        info = dict(vary=vary, exchange=len(proofs), kdf_calls=len(kd))
-        sx.check(len(kd) == 1, "salted-password-derived-for-this-challenge", info=info)
-        if kd:
-            args = kd[0][1]
-            sx.check(args[2] == extra["iterations"] and args[3] == extra["memory"], "KDF-run-with-this-challenges-cost-parameters", info=dict(info, got=[args[2], args[3]]))
-            ck = [c for c in uf.calls[n0:] if c[0] == "hmac-sha256" and bytes(c[1][1]) == b"Client Key"]
-            sx.check(len(ck) == 1 and ck[0][1][0] is a._salted_password, "ClientKey-from-this-exchanges-salted-password", info=info)
+        # the salted password in use is the KDF output FOR THIS challenge's salt and cost parameters (a cache is fine as long as it is keyed by all of them)
+        import base64
+        salt = base64.b64decode(extra["salt"])
+        kd = [c for c in uf.calls if c[0] == "argon2id" and bytes(c[1][1]) == salt and c[1][2] == extra["iterations"] and c[1][3] == extra["memory"]]
+        info = dict(vary=vary, exchange=len(proofs), kdf_calls_with_these_parameters=len(kd))
+        ck = [c for c in uf.calls[n0:] if c[0] == "hmac-sha256" and bytes(c[1][1]) == b"Client Key"]
+        sx.check(len(ck) == 1, "ClientKey-computed-for-this-exchange", info=info)
+        if ck:
+            used = ck[0][1][0]
+            ok = False
+            for c in kd:
+                want = _b64(sx, c[2])[:43]
+                # the code keeps the hash field of the PHC string (unpadded base64 text of the raw hash) as the salted password
+                ok = ok or (used is a._salted_password and len(used) == 43 and bool(used == want))
+            sx.check(ok, "salted-password==KDF(password, this-challenges-salt-and-cost-parameters)", info=info)
         am = a._auth_message
         sx.check(bytes(am).count(extra["nonce"].encode()) == 2 and ("i=%d" % extra["iterations"]).encode() in bytes(am), "auth-message-of-this-exchange", info=info)
     sx.cover("scram:twice")
